@@ -8,8 +8,10 @@ CONSTANTS
   NoBlock = "none"
   CheckAccepts = TRUE
   SimCommits = FALSE
+  NextTwoLoads = FALSE
 INVARIANT TraceVisible
 INVARIANT TraceFinMonotone
+INVARIANT NextIsOneSnapshot
 INVARIANT TracePublished
 INVARIANT NoQueryWrites
 CONSTRAINT Progress
